@@ -1,34 +1,2 @@
-(* GENERATED by tools/py2v/gen_opt.py from xdeps/optimize/optimize.py and matrixutils.py - do not edit *)
-From Coq Require Import String List ZArith.
-From XD Require Import model.OptExpr.
-Import ListNotations.
-Open Scope string_scope.
-
-Definition x_to_knobs_code : weight_code := mk_weight "x" (AMul (AVar "elem") (AVar "weight")) "weight".
-Definition knobs_to_x_code : weight_code := mk_weight "knob_values" (ADiv (AVar "elem") (AVar "weight")) "weight".
-Definition scaled_to_native_expr : aexpr :=
-  (AAdd (AVar "lo") (ADiv (AMul (ASub (AVar "x") (AVar "s0")) (ASub (AVar "hi") (AVar "lo"))) (ASub (AVar "s1") (AVar "s0")))).
-Definition scaled_from_native_expr : aexpr :=
-  (AAdd (AVar "s0") (ADiv (AMul (ASub (AVar "x") (AVar "lo")) (ASub (AVar "s1") (AVar "s0"))) (ASub (AVar "hi") (AVar "lo")))).
-Definition fd : fd_code :=
-  mk_fd (AApp "_knobs_to_x" (AVar "steps_for_jacobian")) (AAdd (AVar "x") (AVar "steps"))
-        (ADiv (ASub (AVar "f(x)") (AVar "f0")) (AVar "steps")) (ASub (AVar "x") (AVar "steps")) true.
-Definition view_jac : view_jac_code :=
-  mk_vj "_scaled_to_native" "get_jacobian"
-        (ASub (AApp "_scaled_to_native" (AAdd (ANum (1)%Z) (AMul (ANum (0)%Z) (AVar "x")))) (AApp "_scaled_to_native" (AMul (ANum (0)%Z) (AVar "x"))))
-        (AMul (AVar "jac_native") (AVar "dx_native_dx_scaled"))
-        (AMul (ANum (2)%Z) (ADot "f0" "jac")) ["check_limits"; "zero_if_met"].
-Definition view_call : view_call_code := mk_vc "_scaled_to_native" ["check_limits"; "return_scalar"; "zero_if_met"].
-Definition lstsq : lstsq_code :=
-  mk_lstsq [("rcond", "rcond"); ("sing_val_cutoff", "sing_val_cutoff")]
-    [mk_slice "U" "U" 1 "sing_val_cutoff"; mk_slice "Vh" "Vh" 0 "sing_val_cutoff"; mk_slice "s" "s" 0 "sing_val_cutoff"]
-    ("s_inv", "zeros_like(s)")
-    [mk_mask "s_inv" (AVar "s") CGt (ANum (0)%Z) (ADiv (ANum (1)%Z) (AVar "s")) None;
-     mk_mask "s_inv" (AVar "s") CLt (AMul (AVar "rcond") (AFirst "s")) (ANum (0)%Z) (Some "rcond")]
-    "x"
-    (MMat (MTr (MV "Vh")) (MMat (MDiag (MV "s_inv")) (MMat (MTr (MV "U")) (MV "b")))).
-Definition step_args : step_code :=
-  mk_step [("rcond", ArgParam "rcond"); ("sing_val_cutoff", ArgParam "sing_val_cutoff")]
-    ["n_steps"; "rcond"; "sing_val_cutoff"; "broyden"] [] []
-    [("rcond", ArgParam "rcond"); ("sing_val_cutoff", ArgParam "sing_val_cutoff"); ("broyden", ArgLocal "this_broyden")]
-    [("rcond", ArgParam "rcond"); ("sing_val_cutoff", ArgParam "sing_val_cutoff"); ("broyden", ArgParam "broyden")] true.
+(* tools/py2v translator FAILED on the current source: SVD.lstsq: s_inv initialisation (line 74) *)
+Definition translator_failed_no_tables : bool := true.
